@@ -94,6 +94,8 @@ pub struct Stats {
     pub non_ascii: u64,
     pub positions_checked: u64,
     pub g_unavailable: u64,
+    pub seam_events: u64,
+    pub seam_events_max: u64,
     pub distinct: BTreeSet<u64>,
     pub nontrivial: BTreeSet<u64>,
     pub parsers: BTreeSet<String>,
@@ -106,7 +108,7 @@ impl Stats {
         json!({"cases": self.cases, "by_kind": self.by_kind, "validated": self.validated, "inconclusive": self.inconclusive,
             "ok_on_prefix": self.ok_on_prefix, "c15_business": self.c15_business, "lr": self.lr, "glr": self.glr,
             "multiline": self.multiline, "non_ascii": self.non_ascii, "positions_checked": self.positions_checked,
-            "g_unavailable": self.g_unavailable,
+            "g_unavailable": self.g_unavailable, "seam_events": self.seam_events, "seam_events_max": [self.seam_events_max],
             "distinct": self.distinct.iter().collect::<Vec<_>>(), "nontrivial": self.nontrivial.iter().collect::<Vec<_>>(),
             "parsers": self.parsers.iter().collect::<Vec<_>>(), "samples": self.samples})
     }
@@ -179,6 +181,8 @@ pub fn check(r: &Runner, case: &Case, st: &mut Stats) -> Verdict {
         Some(o) => o,
         None => return Verdict::Inconclusive("unknown-parser"),
     };
+    st.seam_events += o.events;
+    st.seam_events_max = st.seam_events_max.max(o.events);
     if matches!(o.out, Out::Panic(_) | Out::Budget) {
         return Verdict::C15;
     }
@@ -778,6 +782,9 @@ pub fn run(args: &Args) -> i32 {
         "ok_on_prefix": st["ok_on_prefix"], "left_to_C15_panic_or_budget": st["c15_business"],
         "lr_cases": st["lr"], "glr_cases": st["glr"], "multi_line_cases": st["multiline"], "non_ascii_cases": st["non_ascii"],
         "error_positions_checked_for_line_column": st["positions_checked"],
+        "simulated_time_seam_events_total": st["seam_events"],
+        "simulated_time_seam_events_max_per_parse": st["seam_events_max"].as_array().map(|a| a.iter().filter_map(|x| x.as_u64()).max().unwrap_or(0)).unwrap_or(0),
+        "stream_faults_injected_by_kind": st["by_kind"],
         "parsers_x_layouts_covered": report::distinct(&st["parsers"]),
         "distinct_cases": report::distinct(&st["distinct"]),
         "runs_per_hour": if wall > 0.0 { (cases as f64 / wall * 3600.0) as u64 } else { 0 },
